@@ -64,6 +64,8 @@ func checkC04(c *Ctx) {
 	c.Rule("C04-R1", "for every mode that can be set, disengage emits the matching reset before Tty.Stop, guarded only by the same environment switch, non-emptiness of the string, or the cursor state tests")
 	c.Rule("C04-R2", "Tty contract order: Drain, NotifyResize(nil), wg.Wait dominate Stop; no write after Stop; Close only in finalize after disengage; finalize only from finish; finish only via sync.Once")
 	c.Rule("C04-R3", "engage re-applies mouse/paste/focus/title from the persistent fields; every toggler stores the persistent field and emits consistently, under the lock")
+	c.Rule("C04-R5", "mode strings come in pairs: the built-in fallback of the string that switches a mode off is assigned under the same conditions as the fallback of the string that switches it on; in engage the title is saved before it is set")
+	c.Expect("C04-R5", 3)
 	c.Rule("C04-R4", "the remembered modes (mouse flags, paste, focus, title, cursor style and colour) are stored only by the application-facing togglers: nothing reachable from Suspend, Resume or Fini stores them")
 	c.Expect("C04-R4", 6)
 	for r, n := range map[string]int{"C04-R1": 12, "C04-R2": 8, "C04-R3": 10} {
@@ -412,6 +414,28 @@ func checkC04(c *Ctx) {
 			}
 		})
 		c.Check(okS && okE, "C04-R3", "SetTitle:store+emit", p.pos(st.Pos()), "title stored for Resume and emitted")
+	}
+	if osc := p.Fn("tcell:(*tScreen).prepareExtendedOSC"); osc != nil {
+		checkPairedAssignment(c, p, osc, "C04-R5", "tcell.tScreen", "enableFocus", "disableFocus")
+		checkPairedAssignment(c, p, osc, "C04-R5", "tcell.tScreen", "saveTitle", "restoreTitle")
+	} else {
+		c.Undecided("C04-R5", "prepareExtendedOSC", "-", "not found")
+	}
+	{
+		// the title stack: push (save) before the application's title is written
+		var save, set ssa.Instruction
+		eachInstr(engage, func(in ssa.Instruction) {
+			for _, id := range emitIdents(p, in) {
+				if id == "prepared:saveTitle" {
+					save = in
+				}
+				if id == "prepared:setTitle" {
+					set = in
+				}
+			}
+		})
+		ok := save != nil && set != nil && !reachableAfter(set, save) && reachableAfter(save, set)
+		c.Check(ok, "C04-R5", "engage:title-saved-before-set", p.pos(engage.Pos()), "the terminal's title is pushed on its title stack before the application's title is written (otherwise the restore at exit brings back the application's own title)")
 	}
 	checkRememberedModes(c, p, "C04-R4", "tScreen", []string{"mouseFlags", "pasteEnabled", "focusEnabled", "title", "cursorStyle", "cursorColor"}, []string{"Suspend", "Resume", "Fini", "engage", "disengage"})
 	_ = token.NoPos
